@@ -10,7 +10,7 @@ storage server, C22); repair itself is download (C02) followed by `upload` with 
 `VCfg.asIs` is the verifier as it was before the fix, `VCfg.repaired` the verifier as it is in /repo now (fix fb3513d =
 fixes/C45-verify-block-root.diff: the block hash tree root is taken from the validated share hash leaf).
 
-As built: 27 theorems (one `_partial`) — `verified_good_implies_all_valid` (+ `verified_good_counterexample` for the old verifier),
+As built: 28 theorems (one `_partial`) — `verified_good_implies_all_valid` (+ `verified_good_counterexample` for the old verifier),
 `healthy_iff_N_good`, `recoverable_iff_k_good`, `corrupt_shares_listed`, `noverify_believes_servers`,
 `recoverable_unhealthy_repair_attempted`, `repair_uses_original_parameters`, `repair_regenerates_identical_shares`,
 `post_repair_healthy_implies_N_good`, `repair_never_alters_good_shares`, `repair_output_is_encoder_output`,
@@ -19,7 +19,7 @@ As built: 27 theorems (one `_partial`) — `verified_good_implies_all_valid` (+ 
 `anchored_repaired_share_delivers_block`, `fresh_repaired_share_delivers_block`, `tail_stages_deliver_block`,
 `repaired_share_passes_ct_stage_any`, `known_chain_repaired_share_delivers_block`,
 `validation_stages_keep_trees_sibclosed`, `repaired_share_block_fetch_chain_any`,
-`share_tree_closed_on_every_reachable_node`, `readable_from_repaired_shares_partial`. Further model parts: `checkServerShares` /
+`share_tree_closed_on_every_reachable_node`, `ct_tree_closed_on_every_reachable_node`, `readable_from_repaired_shares_partial`. Further model parts: `checkServerShares` /
 `checkNoVerify`, `repairDecision`, `repairParams`, `gatherRepairResults`, `corruptLocators`. Driver lean/Drv/C45.lean
 (`veup`, `fmt`, `fmtlists`, `noverify`, `verify`, `repairdecision`, `repairparams`, `postrepair`, `repair`) ties each
 of them to the code. Only partially proved (monitor end to end): that the file can be read from the repaired shares alone. -/
@@ -816,6 +816,30 @@ theorem share_tree_closed_on_every_reachable_node (E : Env H) (cfg : Cfg) (prm :
       intro nd h
       exact ih _ (satisfy_keeps_share_tree_closed S.strict pick cap nd p.1 p.2.1 p.2.2 h)
   exact hgen passes _ ⟨newTree_closed _, newTree_sibClosed _⟩
+
+/-- **ct_tree_closed_on_every_reachable_node**: the premises `Closed nd.ctTree` / `SibClosed nd.ctTree` of the whole-pass
+    theorems hold on every node a download can reach (any sequence of passes from a fresh node, any server answers);
+    the invariant also carries "not installed yet or of odd length", which the crypttext stage needs to stay in range. -/
+theorem ct_tree_closed_on_every_reachable_node (E : Env H) (cfg : Cfg) (prm : Params) (ser : UEB H → Bytes)
+    (encode : Nat → Bytes → Nat → Bytes) (ct : Bytes) (sz : Sizes) (S : Setup E cfg prm ser encode ct sz)
+    (pick : List Nat → Nat) (cap : Cap H) (passes : List (Nat × Nat × View H)) :
+    Closed (passes.foldl (fun nd p => (satisfy E cfg pick cap nd p.1 p.2.1 p.2.2).2) (Node.init H cap)).ctTree ∧
+    SibClosed (passes.foldl (fun nd p => (satisfy E cfg pick cap nd p.1 p.2.1 p.2.2).2) (Node.init H cap)).ctTree := by
+  have hgen : ∀ (ps : List (Nat × Nat × View H)) (nd : Node H), CtGood nd →
+      CtGood (ps.foldl (fun nd p => (satisfy E cfg pick cap nd p.1 p.2.1 p.2.2).2) nd) := by
+    intro ps
+    induction ps with
+    | nil => intro nd h; exact h
+    | cons p rest ih =>
+      intro nd h
+      exact ih _ (satisfy_keeps_ctGood S.strict pick cap nd p.1 p.2.1 p.2.2 h)
+  have h0 : CtGood (Node.init H cap) := by
+    have e : (Node.init H cap).ctTree = [] := rfl
+    refine ⟨?_, ?_, Or.inr e⟩
+    · intro i _ h; rw [e] at h; exact absurd (get_of_ge (by simp)) h
+    · intro i _ h; rw [e] at h; exact absurd (get_of_ge (by simp)) h
+  have := hgen passes _ h0
+  exact ⟨this.1, this.2.1⟩
 
 /-- **readable_from_repaired_shares_partial**.  Full statement (NOT proved): after a repair that reports success,
     every read that is offered any k distinct shares out of the old and the repaired ones ends `done` with the
